@@ -48,6 +48,12 @@ pub fn evaluate_pair(case: &PairCase, run: &PairRun, focus: Focus) -> Outcome {
             _ => None,
         }
     });
+    // (only when the endpoint really read that error, and its connection did not end for another reason first)
+    let read_fault = read_fault.filter(|(x, text)| {
+        let delivered = if *x == Side::Server { run.wire.c2s.borrow().read_error_delivered() } else { run.wire.s2c.borrow().read_error_delivered() };
+        let other_end = run.events.iter().any(|ev| ev.side == *x && matches!(&ev.api, Api::ConnDone { result: Err(e) } if !(e.is_io && e.text == *text)));
+        delivered && !other_end
+    });
     check_c17(&C17Ctx { tap: &tap, events: &run.events, h2_sides: &sides, settled, read_fault }, &mut out);
     let reset_max = [case.ccfg.reset_max.unwrap_or(50), case.scfg.reset_max.unwrap_or(50)];
     let c2s_shutdown = run.wire.c2s.borrow().shutdown_called;
